@@ -94,7 +94,7 @@ PROPS['C04'] = dict(
 )
 PROPS['C05'] = dict(
     title='macro expansion',
-    units=['arms', 'depth', 'split', 'rtmu'],
+    units=['arms', 'depth', 'split', 'rtmu', 'pphelp'],
     shims=['A-glue', 'A-hashmap', 'A-str', 'A-arith'],
     design='DESIGN.md 3/C05',
     technique='contract-based deductive verification (Verus) of the verbatim TextMacroUsage arm and of the actual/formal binding block of resolve_text_macro_usage',
@@ -124,7 +124,7 @@ PROPS['C10'] = dict(
 )
 PROPS['C11'] = dict(
     title='define table',
-    units=['arms', 'prologue', 'rtmu', 'wrap', 'depth', 'glue'],
+    units=['arms', 'prologue', 'rtmu', 'wrap', 'depth', 'glue', 'pphelp'],
     shims=['A-glue', 'A-hashmap', 'A-str'],
     design='DESIGN.md 3/C11',
     technique='contract-based deductive verification (Verus) of the verbatim `define / `undef / `undefineall arms and of the table adoption at include and expansion',
